@@ -81,7 +81,9 @@ def run_bounded(name, tier, seed):
         if clause in seen_clauses:
             continue
         seen_clauses.add(clause)
-        props = re.findall(r'\bC\d{2}\b', clause.split(' ')[0] if clause else '') or re.findall(r'\bC\d{2}\b', clause)[:1]
+        # the properties a clause speaks for: the leading run of Cxx tokens
+        m = re.match(r'\s*((?:C\d{2}\s+)+)', clause + ' ')
+        props = re.findall(r'C\d{2}', m.group(1)) if m else re.findall(r'\bC\d{2}\b', clause)[:1]
         inp = f.get('history') or {k: v for k, v in f.items() if k not in ('clause',)}
         res['violations'].append({'props': props, 'unit': 'bounded:' + name, 'function': name, 'kind': 'bounded conformance failure',
                                   'clause': clause, 'rendered': json.dumps(f, ensure_ascii=False)[:3000], 'input': inp, 'exit_point': None,
